@@ -257,6 +257,33 @@ def _seed_overlays(pid, root):
     return out
 
 
+def _refactor_overlays(root):
+    """Overlays from the committed behaviour-preserving refactorings: every check must stay silent."""
+    out = []
+    here = os.path.dirname(os.path.dirname(os.path.abspath(__file__)))
+    for patch in sorted(glob.glob(os.path.join(here, "refactors", "*", "patch.diff"))):
+        name = "refactor:" + os.path.basename(os.path.dirname(patch))
+        tmp = tempfile.mkdtemp(prefix="sa-variant-")
+        try:
+            os.makedirs(os.path.join(tmp, "dataiter"))
+            for f in glob.glob(os.path.join(root, "dataiter", "*.py")):
+                shutil.copy(f, os.path.join(tmp, "dataiter"))
+            r = subprocess.run(["patch", "-p1", "-s", "-d", tmp, "-i", patch], capture_output=True, text=True)
+            if r.returncode != 0:
+                out.append((name, None, "stale"))
+                continue
+            ov = {}
+            for f in glob.glob(os.path.join(tmp, "dataiter", "*.py")):
+                rel = "dataiter/" + os.path.basename(f)
+                src = open(f).read()
+                if src != open(os.path.join(root, rel)).read():
+                    ov[rel] = src
+            out.append((name, ov, S))
+        finally:
+            shutil.rmtree(tmp, ignore_errors=True)
+    return out
+
+
 def _run_variant(args):
     pid, root, name, overlay, expect, rule, base_keys = args
     try:
@@ -294,7 +321,7 @@ def sweep(pid, root, ctx, seed=0):
         except SyntaxError as e:
             raise AnalysisError(f"variant {pid}/{name} does not parse: {e}")
         jobs.append((pid, root, name, {rel: mutated}, expect, rule, base_keys))
-    for name, ov, expect in _seed_overlays(pid, root):
+    for name, ov, expect in _seed_overlays(pid, root) + _refactor_overlays(root):
         if ov is None:
             stale.append(name)
         else:
